@@ -7,8 +7,9 @@
   c06.lex, c06.atoms, c06.numbers, c06.terms.
 -/
 import PrologVerif.Proofs.LexerSpec
+import PrologVerif.Proofs.ReadBack
 namespace PrologVerif.C06
-open PrologVerif PrologVerif.Lexer
+open PrologVerif PrologVerif.Lexer PrologVerif.Write
 
 /-! ### lexer lemmas (shared with C05) -/
 
@@ -18,7 +19,8 @@ def RingOK (l : Lexer) : Prop := RI 0 l
 
 /-- a lexer freshly created on any text has a sound ring buffer -/
 theorem C06_ring_init (s : List Char) : RingOK (Lexer.ofList s) := by
-  simp [RingOK, RI, Lexer.ofList]
+  show RI 0 _
+  simp [RI, Lexer.ofList]
 
 /-- Termination of tokenisation, for every configuration (character-class oracle, conversion table)
     and every reachable lexer state: a `Token` call never exhausts the fuel the model gives it
@@ -70,5 +72,143 @@ theorem C06_tokens_terminate (cfg : Cfg) (n : Nat) (l : Lexer) (h : RingOK l) (h
       exact ih l' hs.1 (by omega)
 
 example : RingOK (Lexer.ofList "foo(0'a, 'x y', 1.5e+3) .".toList) := C06_ring_init _
+
+/-! ### atoms (P0)
+
+  `cfg` is any character-class oracle; `hconv` says that no char_conversion is in effect in the lexer
+  (the engine never installs one: `Lexer.charConversions` is only set by tests).
+
+  * `LexTok cfg x tok tail`: `Token()` on `x ++ tail` — in any lexer state — delivers `tok` and leaves `tail`.
+  * `ReadsAtom cfg text s tail`: the tokens of `text` (followed by `tail`) make `Parser.atom` return `s`,
+    consuming exactly these tokens, whatever the double_quotes flag.
+  * `Unquoted cfg s`: `s` is a small letter followed by alphanumerics, or a graphic token (with the
+    lexer's decisions about `/*` and a leading `.`), or one of `;` `!` `[]` `{}`.
+  * `Delim`: the characters the writer puts after an atom: space, `(`, `)`, `,`. -/
+
+/-- For EVERY atom text `s` (any lexical class, empty, with escapes, non-ASCII, any length):
+    (a) `unquote ∘ quote = id`;
+    (b) the lexer accepts everything `quote` emits: `quote s` followed by anything but a quote is ONE
+        `quoted` token whose text is `quote s`;
+    (c) an atom that `needQuoted` leaves unquoted has an unquoted shape, i.e. lexing it yields the
+        single name token with that very text (or the two tokens of `[]` / `{}`);
+    and together: the text `writeq` emits for `s` (quoted iff `needQuoted`) reads back as the atom `s`
+    in every context the writer puts it in. -/
+theorem C06_atom_roundtrip (cfg : Cfg) (hconv : ∀ c, cfg.conv c = c) (s : List Char) :
+    unquote (quote cfg s) = s ∧
+    (∀ tail, tail.head? ≠ some '\'' → LexTok cfg (quote cfg s) ⟨.quoted, quote cfg s⟩ tail) ∧
+    (needQuoted cfg s = false → Unquoted cfg s) ∧
+    (∀ tail, HeadIs Delim tail → ReadsAtom cfg (atomText cfg s) s tail) :=
+  ⟨unquote_quote cfg s, fun tail ht => lexTok_quote cfg hconv s tail ht,
+   unquoted_of_needQuoted cfg s, fun tail ht => readsAtom_atomText cfg hconv s tail ht⟩
+
+/-- the unquoted shapes really are single name tokens, in context (the other half of (c)) -/
+theorem C06_unquoted_lexes (cfg : Cfg) (hconv : ∀ c, cfg.conv c = c) (s tail : List Char) :
+    (LDName cfg s → HeadIs (fun t => isAlphanumericChar cfg t = false) tail → LexTok cfg s ⟨.letterDigit, s⟩ tail) ∧
+    (GraphicName cfg s → HeadIs (fun t => isGraphicOrBs t = false) tail → LexTok cfg s ⟨.graphic, s⟩ tail) :=
+  ⟨fun h ht => lexTok_ldName cfg hconv s tail h ht, fun h ht => lexTok_graphicName cfg hconv s tail h ht⟩
+
+/-- the escape check of the lexer accepts every escape `quote` writes (so the token is `quoted`, not `invalid`) -/
+theorem C06_quote_escapes_valid (cfg : Cfg) (s : List Char) : validEscapeSequences (quote cfg s) = true :=
+  validEscapeSequences_quote cfg s
+
+-- non-vacuity: atoms of the interesting classes
+example : needQuoted Cfg.ascii "hello world".toList = true := by decide
+example : quote Cfg.ascii ['a', '\n', '\'', '\\', Char.ofNat 0x20AC] = "'a\\n\\'\\\\\\x20ac\\'".toList := by decide
+example : needQuoted Cfg.ascii "foo_Bar1".toList = false := by decide
+example : needQuoted Cfg.ascii "=..".toList = false := by decide
+example : needQuoted Cfg.ascii [] = true := by decide
+example : needQuoted Cfg.ascii "[]".toList = false := by decide
+
+/-- D12 on the pinned tree (before commit 3a54fa1 `quote` left U+20AC verbatim): the model of the
+    pinned `quote` is NOT accepted by the lexer — the first token is `invalid` -/
+theorem C06_D12_pinned_witness :
+    ((tokens Cfg.ascii 3 (Lexer.ofList (quotePinned [Char.ofNat 0x20AC]))).1.map (·.kind)).head? = some .invalid := by
+  decide +kernel
+
+/-- ... while the repaired `quote` of the same atom is one quoted token -/
+example : ((tokens Cfg.ascii 3 (Lexer.ofList (quote Cfg.ascii [Char.ofNat 0x20AC]))).1.map (·.kind)) = [.quoted] := by
+  decide +kernel
+
+/-! ### integers (P0) -/
+
+/-- `parseInteger (formatInt i) = i` for all 64-bit `i`: the digits `strconv.FormatInt` prints are ONE
+    integer token (whatever delimiter follows), `integer()` — through its `big.ParseFloat` detour with
+    a 64-bit mantissa — returns exactly `i` from them with the sign the parser passes, and the whole
+    text followed by ` .` is read by `read_term` as the integer `i` under EVERY operator table and
+    double_quotes flag (`-` directly followed by a number token is a negative literal; see the
+    examples below for `- 1`, `- (1)`, `-(1)`). -/
+theorem C06_integer_roundtrip (cfg : Cfg) (hconv : ∀ c, cfg.conv c = c) (i : Int)
+    (hlo : -9223372036854775808 ≤ i) (hhi : i ≤ 9223372036854775807) :
+    (∀ tail, HeadIs IntTail tail →
+      LexTok cfg (decDigits i.natAbs) ⟨.integer, decDigits i.natAbs⟩ tail) ∧
+    Read.integer (if i < 0 then -1 else 1) (decDigits i.natAbs) = .ok i ∧
+    ∀ (ops : Ops.Table) (dq : Read.DoubleQuotes),
+      Read.readTerm cfg ops dq (formatInt i ++ [' ', '.']) = .ok (.int i) := by
+  obtain ⟨h1, h2, _⟩ := decDigits_spec i.natAbs (by omega)
+  exact ⟨fun tail ht => lexTok_digits cfg hconv _ tail h1 h2 ht, integer_formatInt i hlo hhi,
+    fun ops dq => readTerm_formatInt cfg hconv ops dq i hlo hhi⟩
+
+example : formatInt (-9223372036854775808) = "-9223372036854775808".toList := by decide
+-- the three spellings around a prefix minus, under the default operator table
+example : (Read.readTerm Cfg.ascii Ops.defaultTable .chars "- 1 .".toList).toOption = some (.int (-1)) := by decide +kernel
+example : (Read.readTerm Cfg.ascii Ops.defaultTable .chars "- (1) .".toList).toOption =
+    some (.app "-" (.cons (.int 1) .nil)) := by decide +kernel
+example : (Read.readTerm Cfg.ascii Ops.defaultTable .chars "-(1) .".toList).toOption =
+    some (.app "-" (.cons (.int 1) .nil)) := by decide +kernel
+-- and what the writer makes of the compound -(1) and of -(0) (D20), 1 - (-1), a - (-0.0) (D21 needs the float text)
+example : writeq ⟨Cfg.ascii, fun _ => [], fun _ => []⟩ Ops.defaultTable (.app "-" (.cons (.int 1) .nil)) = "- (1)".toList := by
+  decide +kernel
+example : writeq ⟨Cfg.ascii, fun _ => [], fun _ => []⟩ Ops.defaultTable (.app "-" (.cons (.int 0) .nil)) = "- (0)".toList := by
+  decide +kernel
+example : writeq ⟨Cfg.ascii, fun _ => [], fun _ => []⟩ Ops.defaultTable
+    (.app "-" (.cons (.int 1) (.cons (.int (-1)) .nil))) = "1- -1".toList := by
+  decide +kernel
+
+/-! ### floats (P0) -/
+
+/-- For every text in the grammar of `strconv.FormatFloat(f, 'g', -1, 64)` outputs for finite `f`
+    (`-?d+(.d+)?(e[+-]d+)?`, the parameter `g : GText`): what `Float.WriteTerm` writes is the sign
+    followed by a body that always contains `.` with digits on both sides, and that body is ONE
+    `float number` token, whatever follows it (except a digit or `e`/`E`).  Bit-exactness of the value
+    rests on the library law `ParseFloat ∘ FormatFloat(-1) = id` and on `float()` being correctly
+    rounded — checked per case by c06.numbers against exact rational arithmetic, not provable about
+    `strconv` here. -/
+theorem C06_float_text_shape (cfg : Cfg) (hconv : ∀ c, cfg.conv c = c) (g : GText) (hg : g.WF) :
+    patchFloat g.render = signText g.neg ++ g.body ∧
+    ∀ tail, HeadIs FloatTail tail → LexTok cfg g.body ⟨.floatNumber, g.body⟩ tail :=
+  ⟨patchFloat_render g hg, fun tail ht => lexTok_floatBody cfg hconv g hg tail ht⟩
+
+-- non-vacuity: 1e+22, -1.5e-07, 0
+example : (⟨false, ['1'], [], some (false, ['2', '2'])⟩ : GText).render = "1e+22".toList ∧
+    (⟨false, ['1'], [], some (false, ['2', '2'])⟩ : GText).body = "1.0e+22".toList := by decide
+example : (⟨true, ['1'], ['5'], some (true, ['0', '7'])⟩ : GText).WF := by
+  refine ⟨by simp, ?_, ?_, ?_⟩
+  · intro d hd; simp at hd; subst hd; exact ⟨1, by decide, rfl⟩
+  · intro d hd; simp at hd; subst hd; exact ⟨5, by decide, rfl⟩
+  · intro sg ds h; simp at h; obtain ⟨_, rfl⟩ := h
+    refine ⟨by simp, ?_⟩
+    intro d hd; simp at hd
+    rcases hd with rfl | rfl
+    · exact ⟨0, by decide, rfl⟩
+    · exact ⟨7, by decide, rfl⟩
+
+/-! ### terms: full statements kept open (P1 / P2)
+
+  Checked on every run by the property's own oracle on the real interpreter (stream c06.terms: write
+  to a stream, read back with the same operator table and flag, compare) and by model/implementation
+  agreement of the written text and of the term read back. -/
+
+/-- P1 (open): `write_canonical` text of every finite term reads back to the same term up to variable
+    renaming, under every operator table.  `e` supplies the float texts and variable names. -/
+def C06_canonical_roundtrip_statement : Prop :=
+  ∀ (e : Env) (ops : Ops.Table) (dq : Read.DoubleQuotes) (t : Term),
+    (∀ c, e.cfg.conv c = c) →
+    Read.readTerm e.cfg ops dq (writeCanonical e ops t ++ [' ', '.']) = .ok t.canon
+
+/-- P2 (open): the same for `writeq` with operators. -/
+def C06_op_roundtrip_statement : Prop :=
+  ∀ (e : Env) (ops : Ops.Table) (dq : Read.DoubleQuotes) (t : Term),
+    (∀ c, e.cfg.conv c = c) →
+    Read.readTerm e.cfg ops dq (writeq e ops t ++ [' ', '.']) = .ok t.canon
 
 end PrologVerif.C06
